@@ -101,7 +101,10 @@ def bad_reply(kind: str, arg, ip: str = "10.0.0.66") -> bytes:
         docs = ["<root/>", "<root><body/></root>", "<root><body><device/></body></root>",
                 "<root><body><device port='abc'/></body></root>", "<root><body><device ip='1.2.3.4'/></body></root>",
                 "<a><body><device port=''/></body></a>", "<root><body><device port='7'/></body></root>",
-                "<root><body><device port='6444' apc_type='ac'/></body></root>"]
+                "<root><body><device port='6444' apc_type='ac'/></body></root>",
+                # ports no TCP stack accepts, and a V1 unit whose info port (6443: a V1InfoServer may listen there) answers
+                "<root><body><device port='70000'/></body></root>", "<root><body><device port='-1'/></body></root>", "<root><body><device port='65536'/></body></root>",
+                "<root><body><device port='6443'/></body></root>", "<root><body><device port='0'/></body></root>", "<root><body><device port=' 6443 '/></body></root>"]
         return docs[arg % len(docs)].encode()
     if kind == "empty":
         return b""
@@ -109,3 +112,26 @@ def bad_reply(kind: str, arg, ip: str = "10.0.0.66") -> bytes:
 
 
 BAD_KINDS = ["random", "random5a", "random83", "cut", "nonutf8_sn", "nonutf8_name", "name", "name_len", "badpad", "v3short", "xml", "empty"]
+
+
+class V1InfoServer:
+    """TCP side of a legacy (V1, XML) unit: answers whatever the client sends on its info port with `reply` (or stays silent)."""
+
+    def __init__(self, loop, reply: bytes, delay: float = 0.05, then: str = None) -> None:
+        self.loop, self.reply, self.delay, self.then = loop, reply, delay, then
+        self.requests: list = []
+
+    def accept(self, transport):
+        srv = self
+
+        class _Conn:
+            def data_received(self_inner, data: bytes) -> None:
+                srv.requests.append(bytes(data))
+                if srv.reply is not None:
+                    transport.feed_later(srv.delay, srv.reply)
+                    if srv.then:
+                        transport.close_later(srv.delay + 1e-4, None)
+
+            def client_closed(self_inner) -> None:
+                pass
+        return _Conn()
